@@ -309,6 +309,25 @@ def _may_alias(e, aliases):
     return None
 
 
+_ARRAY_ATTRS = {'shape', 'T', 'conj', 'reshape', 'ndim', 'dtype', 'real', 'imag', 'transpose', 'copy', 'astype', 'sum', 'view', 'flatten', 'mT', 'device'}
+
+
+def _array_evidence(fi, name):
+    """does the function itself treat `name` as an array?  (annotation, array attribute, slice subscript)"""
+    for a in fi.node.args.posonlyargs + fi.node.args.args + fi.node.args.kwonlyargs:
+        if a.arg == name and a.annotation is not None and any(k in ast.unparse(a.annotation) for k in ('ndarray', 'Tensor')):
+            return True
+    for x in ast.walk(fi.node):
+        if isinstance(x, ast.Attribute) and isinstance(x.value, ast.Name) and x.value.id == name and x.attr in _ARRAY_ATTRS:
+            return True
+        if isinstance(x, ast.Subscript) and isinstance(x.value, ast.Name) and x.value.id == name and isinstance(x.slice, (ast.Slice, ast.Tuple)):
+            return True
+        if isinstance(x, ast.Call) and ast.unparse(x.func).split('.')[0] in ('np', 'numpy', 'torch', 'scipy') and any(isinstance(a, ast.Name) and a.id == name for a in x.args) \
+                and ast.unparse(x.func).split('.')[-1] not in ('asarray', 'array', 'arange', 'zeros', 'ones', 'eye', 'tensor', 'prod', 'sqrt', 'log2', 'log', 'exp'):
+            return True
+    return False
+
+
 def pu1(proj, rep, modules):
     rep.rule('PU1', RULE_PU1)
     n = 0
@@ -351,7 +370,9 @@ def pu1(proj, rep, modules):
                 if isinstance(s, ast.Assign) and isinstance(s.targets[0], ast.Subscript):
                     tgt = s.targets[0]
                 elif isinstance(s, ast.AugAssign) and not isinstance(s.target, ast.Name):
-                    tgt = s.target          # `x op= v` on a bare name re-binds for Python scalars: ambiguous, not reported here
+                    tgt = s.target
+                elif isinstance(s, ast.AugAssign) and isinstance(s.target, ast.Name) and _array_evidence(fi, s.target.id):
+                    tgt = s.target          # `x op= v` on a bare name is in place only for arrays: reported when the function itself treats x as an array
                 if tgt is None:
                     continue
                 if isinstance(tgt, ast.Name) and tgt.id not in aliases:
